@@ -21,7 +21,7 @@ remap_propagators_gen remap_scatter_gather remap_segProp remap_segProp_gen remap
 swapFin_apply swap_kron swap_kronFin swap_product_basis tensor_transpose_pi'''.split() + ['FFVerif.C05d.' + t for t in '''remap_keeps_diag remap_cm_iff remap_omega_iff
 remap_lazy_iff remap_not_pauli_blocks_auto'''.split()]
 LEAN_MODULES = ['FFVerif.Props.C06', 'FFVerif.Props.C05d']
-PINS = ['pinRemap']
+PINS = ['pinRemap', 'pinMapIdentifiers']
 GEN_SITES = ['einsum:numeric_calculate_control_matrix_from_scratch_0']
 COMPONENTS = ['pauli_remap', 'remap_decision']
 RULES = ['correspondence: remap_pauli_basis_elements vs the Lean index map for all permutations, '
